@@ -2,6 +2,7 @@
   Driver.Main — one JSON object per line in, one per line out.  See /verif/DESIGN.md Appendix B.
 -/
 import Driver.Wire
+import ErgoModel.Json
 open Lean Ergo Ergo.Wire Ergo.Storage
 
 def handle (j : Json) : Json :=
@@ -43,6 +44,14 @@ def handle (j : Json) : Json :=
         ("claimed", match r.out.claimed with | some t => Json.str t.id | none => Json.null),
         ("pruned", Json.arr (r.out.pruned.map Json.str).toArray),
         ("post", post)]
+  | "json" =>
+    let cpsOf (k : String) : List Char := (arr j k).filterMap fun x => match x with
+      | .num n => some (Char.ofNat n.mantissa.toNat) | _ => none
+    let out (l : List Char) : Json := Json.arr (l.map fun c => Json.num c.toNat).toArray
+    let sIn := cpsOf "s"
+    Json.mkObj [("enc_html", out (Ergo.Json.encodeString true sIn)), ("enc_raw", out (Ergo.Json.encodeString false sIn)),
+      ("dec", match Ergo.Json.decodeString (cpsOf "lit") with | some l => out l | none => Json.null),
+      ("trim", out (Text.trimSpaceL sIn)), ("blank", Text.isBlankL sIn)]
   | "storage" =>
     let classify := classifierOf (j.getObjValD "classes")
     let limit := (j.getObjValAs? Nat "limit").toOption.getD 10485760
